@@ -28,7 +28,7 @@ ASSUMPTIONS = [
     "out-of-run pairs under DFLT may legitimately change when skipping removes a script from the font (DESIGN.md C13); only in-run, not bidi-mixed pairs are compared",
 ]
 N = {"quick": (8, 120), "thorough": (16, 700)}
-FLOORS = {"mode=static-outline": 0.25, "mode=static-layout": 0.15, "mode=masters-union": 0.08, "mode=variable-sparse": 0.08, "skipped-used-as-component": 0.25}
+FLOORS = {"mode=static-outline": 0.173, "mode=static-layout": 0.091, "mode=masters-union": 0.032, "mode=variable-sparse": 0.054, "skipped-used-as-component": 0.168}  # a third of the measured frequency: a starving generator is a harness error, sampling noise is not
 
 
 def reload(t):
